@@ -258,6 +258,18 @@ pub fn checks() -> Vec<Check> {
         budget_s: (50, 900),
     },
     Check {
+        id: "C17",
+        level: "model_checking",
+        stages: vec![
+            st("c17.histories", c17::histories, (0, 0), 3, "6 file variants (intact; payload / blob / checksum damage; destroyed section id and packet header) x all read-op histories of depth 3 (thorough 4) on one reader"),
+            st("c17.faults", c17::faults, (0, 0), 3, "2 file variants x warm-up op x faulted op x one-shot device error at every device operation of the faulted op x every following op on the healthy device"),
+        ],
+        extra: Some(c17::extra),
+        rule: "every result on a reader with history must equal the memoised result of the same operation on a freshly opened reader over the same bytes (Ok payload hashes exact, Err by class and message); BFS: canonical state = (cached page number, page buffer) through the verification hook, expanded to a fixpoint, every op evaluated in every reachable cache state; distinct_nontrivial = distinct cache states / histories",
+        assumptions: &["the canonical-state abstraction is only used to prune the BFS; every kept state is still checked against the fresh-reader oracle", "alphabet: raw/simple iterators with take 0, 1, all per cloud; every image blob and mask; a bogus blob descriptor; xml; pointclouds; images"],
+        budget_s: (55, 900),
+    },
+    Check {
         id: "C14",
         level: "model_checking",
         stages: vec![st(
